@@ -19,6 +19,8 @@ func profC09() *RevProfile {
 	p.EntryW = []int{50, 20, 30}
 	p.FetcherW = []int{55, 40, 5}
 	p.Hostile = true
+	p.InvalidChain = 6 // chains that must be refused, not crash the validator
+	p.TimestampPct = 25
 	// a transport, fetcher or cache that panics has "answered": the call must
 	// still terminate (the panic itself resurfacing on the caller is C17's
 	// subject and is not judged here)
